@@ -28,11 +28,13 @@ PROPS = {
                      "full validation = add_block above the checkpoint horizon (horizon lowered to -1 or 2 in the harness)"]),
     "C02": dict(
         lean_core=["Props.GenTie.Params", "Props.C16", "Props.C02"],
-        lean_code=["Props.GenTie.Subsidy", "Props.GenTie.CoinbaseRule", "Props.GenTie.SpendByItselfRule", "Props.GenTie.SpendRule"],
-        gen_funcs=["get_block_subsidy", "validate_sashimi_range", "coinbase_in_state_ok", "spend_by_itself_ok", "spend_in_state_ok"], harness="c02",
+        lean_code=["Props.GenTie.Subsidy", "Props.GenTie.CoinbaseRule", "Props.GenTie.SpendByItselfRule", "Props.GenTie.SpendRule",
+                   "Props.GenTie.FeeRule"],
+        gen_funcs=["get_block_subsidy", "validate_sashimi_range", "coinbase_in_state_ok", "spend_by_itself_ok", "spend_in_state_ok",
+                   "transaction_fee"], harness="c02",
         code_deps={"Props.GenTie.Subsidy": ["get_block_subsidy", "validate_sashimi_range"],
                    "Props.GenTie.SpendByItselfRule": ["spend_by_itself_ok", "validate_sashimi_range", "get_block_subsidy"],
-                   "Props.GenTie.SpendRule": ["spend_in_state_ok"],
+                   "Props.GenTie.SpendRule": ["spend_in_state_ok"], "Props.GenTie.FeeRule": ["transaction_fee"],
                    "Props.GenTie.CoinbaseRule": ["get_block_subsidy", "validate_sashimi_range", "coinbase_in_state_ok"]},
         assumptions=["as C01"]),
     "C05": dict(
